@@ -121,7 +121,10 @@ class _AttrBase(Prop):
     trace_module = "AttrTrace"
 
     def model_runs(self, tier):
-        return [{"module": "MC_Attr", "cfg": f"Attr_{tier}.cfg"}]
+        runs = [{"module": "MC_Attr", "cfg": f"Attr_{tier}.cfg"}]
+        if tier == "thorough":
+            runs.append({"module": "MC_Attr", "cfg": "Attr_sim.cfg", "simulate": "num=60", "depth": 10, "export": False, "timeout": 900})
+        return runs
 
     def gens_from_export(self, lines, tier, rnd):
         return [{"kind": "hist", "hist": ln["hist"], "choice": rnd.getrandbits(12),
